@@ -343,7 +343,7 @@ theorem evalCallExpr_nonsym_simF {n : Nat} (hE : FClaimE n) (e : Expr) (he : Ff 
     run_runGen_any _ s0 _ gs' hc hfns
   generalize hs : withLoops s0 gs' = s at hgen
   have hrel : RelF m s rs env := by
-    subst hs; exact hrel0.of_same rfl rfl rfl rfl rfl rfl hrel0.heap hrel0.trace hrel0.hok
+    subst hs; exact hrel0.of_same rfl rfl rfl rfl rfl rfl hrel0.heap hrel0.trace hrel0.hok ⟨hk.1.loopsLen, hk.1.loopsGet⟩
   have hs0 : FrameF s0 s ∧ s.data = s0.data ∧ s.pc = s0.pc := by
     subst hs
     exact ⟨⟨⟨rfl, rfl, rfl, rfl, Nat.le_refl _, fun _ _ => rfl, hk.1.loopsLen, hk.1.loopsGet⟩, Nat.le_refl _, fun _ _ => rfl⟩,
@@ -369,6 +369,7 @@ theorem evalCallExpr_nonsym_simF {n : Nat} (hE : FClaimE n) (e : Expr) (he : Ff 
     have hframe : FrameF s { s4 with addr := s.addr, curfunc := s.curfunc, pc := s.pc, data := s.data } :=
       ⟨⟨fr4.linear, rfl, rfl, fr4.susp, hfl, hfo, fr4.loopsLen, fr4.loops⟩, fr4.scLen, fr4.flags⟩
     have hfn0 : s.fns.length = s0.fns.length := by subst hs; rfl
+    have hle4 : LoopsExt s s4 := ⟨fr4.loopsLen, fr4.loops⟩
     refine ⟨M + 2, { s4 with addr := s.addr, curfunc := s.curfunc, pc := s.pc, data := s.data }, m4, v,
       fun fuel hf => ?_, hs0.2.1, hs0.2.2, hv, ?_,
       fun id hid => hm4 id (by show id < (s.fns ++ [_]).length; simp; omega),
@@ -377,7 +378,7 @@ theorem evalCallExpr_nonsym_simF {n : Nat} (hE : FClaimE n) (e : Expr) (he : Ff 
       rw [hunf f, hM f (by omega)]
       simp only [hbal]
       rfl
-    · exact hrel.back rel4 rfl rfl rfl rfl fr4.linear rfl fr4.flags hfl hfo ext4.1
+    · exact hrel.back rel4 rfl rfl rfl rfl fr4.linear rfl fr4.flags hfl hfo ext4.1 hle4
     · exact ValIn.mono hcl4 (fun id hg => hg.mono (FnsKeep.of_fns_eq rfl) (Nat.le_refl _) (fun _ _ => rfl) (RExt.refl _) rfl)
   | err rs' =>
     rw [hres] at hsim
@@ -564,152 +565,6 @@ def FClaimU (n : Nat) : Prop :=
 
 theorem okParam_name {p : String} (h : okParam p = true) : okName p = true := by
   unfold okParam at h; simp only [Bool.and_eq_true] at h; exact h.1
-
-theorem fclaimU_succ {n : Nat} (hB : FClaimB n) : FClaimU (n + 1) := by
-  intro m s₁ rs₁ env vid vs D hrel hg hd hvs hlen
-  obtain ⟨c, hc1, hrest, hnd, hokp, hbody, hparams, hnargs, hvar, huser, hel, _,
-    t, b, tl, isFn, cb, gs0, gs1, self, hcode, htlt, htclo, hcomp, hsc0, hfname, hff, hgen⟩ := hg.clo
-  have hvl : vs.length = c.ps.length := by rw [hlen, hnargs]
-  -- the reference side
-  rw [Ref.applyFn]
-  simp only [hc1, Ref.bindParams, hrest, List.length_map, hvl, if_true]
-  -- the reference state at the start of the body
-  have hnf : (Ref.newFrame rs₁ c.env) = (rs₁.frames.length, { rs₁ with frames := rs₁.frames ++ [{ parent := some c.env }] }) := rfl
-  have hfold := foldl_setVar rs₁.frames.length (c.ps.zip (vs.map (trf m)))
-    { rs₁ with frames := rs₁.frames ++ [{ parent := some c.env }] } { parent := some c.env }
-    (by show (rs₁.frames ++ [_])[rs₁.frames.length]? = _; simp)
-  generalize hrsB : (c.ps.zip (vs.map (trf m))).foldl (fun s (p : String × Val) => Ref.setVar s rs₁.frames.length p.1 p.2)
-    { rs₁ with frames := rs₁.frames ++ [{ parent := some c.env }] } = rsB at hfold
-  have hfrB : rsB.frames = rs₁.frames ++ [({ vars := bindsVars [] (c.ps.zip (vs.map (trf m))), parent := some c.env } : Ref.Frame)] := by
-    rw [hfold]; show (rs₁.frames ++ [_]).set rs₁.frames.length _ = _
-    simp
-  have hclB : rsB.clos = rs₁.clos := by rw [hfold]
-  have hhpB : rsB.heap = rs₁.heap := by rw [hfold]
-  have htrB : rsB.trace = rs₁.trace := by rw [hfold]
-  show (match (match Ref.evalBegin n c.body rs₁.frames.length
-        ((c.ps.zip (vs.map (trf m))).foldl (fun s (p : String × Val) => Ref.setVar s rs₁.frames.length p.1 p.2)
-          { rs₁ with frames := rs₁.frames ++ [{ parent := some c.env }] }) with
-      | .ok v s => Ref.R.ok v s | .brk _ s => .err s | .cont _ s => .err s | r => r) with
-    | .ok v' rs' => _ | .err rs' => _ | .timeout => _ | .brk _ _ => _ | .cont _ _ => _)
-  rw [hrsB]
-  -- the machine: function scope, parameters
-  have hcur1 := hrel.ctx
-  obtain ⟨b0, hch, hfc⟩ := hcur1
-  have a2 : At (entered s₁ vid) [] (.addFuncScope t)
-      ((c.ps.map Instr.popStackPutEnv).reverse ++ b ++ [.removeScope, .ret]) :=
-    ⟨huser, by show (fnOf s₁ vid).code = _; rw [hcode]; simp [fnCode], rfl⟩
-  have r2 : ReachX (entered s₁ vid) ((entered s₁ vid).pushFnScope t) :=
-    (Reach.step a2 (fun f => exec_addFuncScope f t _)).toX
-  generalize hs3 : (entered s₁ vid).pushFnScope t = s₃ at r2
-  have hzl : (c.ps.zip vs).map (·.1) = c.ps := List.map_fst_zip (by omega)
-  have hzr : (c.ps.zip vs).map (·.2) = vs := List.map_snd_zip (by omega)
-  have hpairs1 : ((c.ps.zip vs).reverse).map (fun p => Instr.popStackPutEnv p.1) = (c.ps.map Instr.popStackPutEnv).reverse := by
-    have := congrArg (List.map Instr.popStackPutEnv) hzl
-    rw [List.map_map] at this
-    rw [List.map_reverse]; exact congrArg List.reverse this
-  have hpairs2 : ((c.ps.zip vs).reverse).map (fun p => some p.2) = vs.reverse.map some := by
-    have := congrArg (List.map (some : Val → Option Val)) hzr
-    rw [List.map_map] at this
-    rw [List.map_reverse, List.map_reverse]; exact congrArg List.reverse this
-  have hsc3 : s₃.scopes = s₁.scopes ++ [({ isFunction := true, myFunction := some t } : Scope)] := by subst hs3; rfl
-  have hscope3 : scopeOf s₃ s₁.scopes.length = { isFunction := true, myFunction := some t } := by
-    unfold scopeOf; rw [hsc3]; simp [List.getD_eq_getElem?_getD]
-  have r4 := reach_params (c.ps.zip vs).reverse s₃ [.addFuncScope t] (b ++ [.removeScope, .ret]) D s₁.scopes.length s₁.linear
-    (by subst hs3; exact huser)
-    (by subst hs3; show (fnOf s₁ vid).code = _; rw [hcode, hpairs1]; simp [fnCode])
-    (by subst hs3; rfl) (by subst hs3; show s₁.data = _; rw [hd, hpairs2]) (by subst hs3; rfl)
-    (by rw [hsc3]; simp) (fun x _ => by rw [hscope3]; rfl)
-    (by rw [List.map_reverse, hzl]; exact nodup_reverse' hnd)
-  generalize hs4 : afterParams s₃ s₁.scopes.length (c.ps.zip vs).reverse D = s₄ at r4
-  have hsc4 : s₄.scopes = s₁.scopes ++ [({ vars := bindsVars [] (c.ps.zip vs).reverse, isFunction := true, myFunction := some t } : Scope)] := by
-    subst hs4; unfold afterParams
-    show s₃.scopes.set s₁.scopes.length _ = _
-    rw [hscope3, hsc3]; simp
-  have hlin4 : s₄.linear = some s₁.scopes.length :: s₁.linear := by subst hs4; subst hs3; rfl
-  have hfns4 : s₄.fns = s₁.fns := by subst hs4; subst hs3; rfl
-  have hcur4 : s₄.curfunc = vid := by subst hs4; subst hs3; rfl
-  have hpc4 : s₄.pc = ((1 + c.ps.length : Nat) : Int) := by
-    subst hs4; subst hs3; show (0 : Int) + 1 + ((c.ps.zip vs).reverse.length : Nat) = _
-    simp [hvl] <;> omega
-  have hd4 : s₄.data = D := by subst hs4; rfl
-  have haddr4 : s₄.addr = some (s₁.curfunc, s₁.pc + 1) :: s₁.addr := by subst hs4; subst hs3; rfl
-  have hsusp4 : s₄.suspended = s₁.suspended := by subst hs4; subst hs3; rfl
-  have hloops4 : s₄.loops = s₁.loops := by subst hs4; subst hs3; rfl
-  -- the relation at the start of the body
-  have hndz : ((c.ps.zip vs).map (·.1)).Nodup := by rw [hzl]; exact hnd
-  have hndz' : ((c.ps.zip (vs.map (trf m))).map (·.1)).Nodup := by
-    rw [List.map_fst_zip (by simp; omega)]; exact hnd
-  have relB : RelF m s₄ rsB rs₁.frames.length := by
-    refine hrel.enter hg (fun c' hc' => by rw [hc1] at hc'; injection hc' with hc'; rw [hc']) s₄ rsB t _ _ hsc4 hlin4 hfns4 hcur4 (by subst hs4; subst hs3; rfl) (by subst hs4; subst hs3; rfl)
-      hfrB hclB hhpB htrB htclo (fun y => ?_) (fun y v hv => ?_) (fun h hh => ?_)
-    · rw [lookup_bindsVars, lookup_bindsVars, List.reverse_reverse, lookup_reverse_of_nodup _ hndz', lookup_zip_map]
-      cases (c.ps.zip vs).lookup y <;> rfl
-    · rw [lookup_bindsVars, List.reverse_reverse] at hv
-      cases hz : (c.ps.zip vs).lookup y with
-      | none => rw [hz] at hv; cases hv
-      | some w => rw [hz] at hv; injection hv with hv; subst hv; exact hvs w (lookup_zip_mem hz).2
-    · rw [lookup_bindsVars, lookup_reverse_of_nodup _ hndz', lookup_zip_none]
-      · rfl
-      · intro hm
-        have := okName_binder (okParam_name (hokp h hm))
-        unfold okBinder at this
-        simp only [Bool.not_eq_true', List.contains_eq_mem, decide_eq_false_iff_not] at this
-        exact this hh
-  -- the body
-  have hseg4 : Seg s₄ ([.addFuncScope t] ++ (c.ps.map Instr.popStackPutEnv).reverse) b [.removeScope, .ret] :=
-    ⟨by rw [hcur4]; unfold fnOf; rw [hfns4]; exact huser, by rw [hcur4]; show (fnOf s₄ vid).code = _; unfold fnOf; rw [hfns4]; exact hcode.trans (by simp [fnCode]),
-      by rw [hpc4]; simp; omega⟩
-  have hsim := hB true self c.body hbody hff isFn cb gs0 ((b, tl), gs1) hcomp hfname m s₄ rsB rs₁.frames.length _ _ relB
-    (fun _ => hgen.mono (FnsKeep.of_fns_eq hfns4)) hseg4
-  have hreach4 : ReachX (entered s₁ vid) s₄ := r2.trans r4
-  cases hres : Ref.evalBegin n c.body rs₁.frames.length rsB with
-  | ok v' rs' =>
-    rw [hres] at hsim
-    obtain ⟨s₅, m₅, v, r5, l5, hv5, rel5, hm5, ext5, fr5, hcl5⟩ := hsim
-    simp only
-    -- removeScope, ret
-    have hcode5 : (fnOf s₅ s₅.curfunc).code = fnCode t c.ps b := by rw [l5.fn, hcur4]; unfold fnOf; rw [hfns4]; exact hcode
-    have huser5 : (fnOf s₅ s₅.curfunc).user = false := by rw [l5.fn, hcur4]; unfold fnOf; rw [hfns4]; exact huser
-    have a5 : At s₅ ([.addFuncScope t] ++ (c.ps.map Instr.popStackPutEnv).reverse ++ b) .removeScope [.ret] :=
-      ⟨huser5, by rw [hcode5]; simp [fnCode], by rw [l5.pc, hpc4]; simp; omega⟩
-    have hlin5 : s₅.linear = some s₁.scopes.length :: s₁.linear := by rw [fr5.linear, hlin4]
-    have r6 : ReachX s₅ { s₅ with pc := s₅.pc + 1, linear := s₁.linear } :=
-      (Reach.step a5 (fun f => by rw [exec_removeScope, hlin5])).toX
-    have a6 : At ({ s₅ with pc := s₅.pc + 1, linear := s₁.linear } : St)
-        ([.addFuncScope t] ++ (c.ps.map Instr.popStackPutEnv).reverse ++ b ++ [.removeScope]) .ret [] :=
-      ⟨huser5, by show (fnOf s₅ s₅.curfunc).code = _; rw [hcode5]; simp [fnCode],
-        by show s₅.pc + 1 = _; rw [l5.pc, hpc4]; simp; omega⟩
-    have haddr5 : s₅.addr = some (s₁.curfunc, s₁.pc + 1) :: s₁.addr := by rw [fr5.addr, haddr4]
-    have r7 : ReachX ({ s₅ with pc := s₅.pc + 1, linear := s₁.linear } : St)
-        { s₅ with pc := s₁.pc + 1, linear := s₁.linear, addr := s₁.addr, curfunc := s₁.curfunc } :=
-      (Reach.step a6 (fun f => by rw [exec_ret]; show (match s₅.addr with | [] => _ | none :: _ => _ | some (fn, pc) :: rest => _) = _; rw [haddr5])).toX
-    have hfl14 : ∀ i, i < s₁.scopes.length → isFnScope s₄ i = isFnScope s₁ i := fun i hi => by
-      unfold isFnScope scopeOf; rw [hsc4]; simp only [List.getD_eq_getElem?_getD, List.getElem?_append_left hi]
-    have hscl14 : s₁.scopes.length ≤ s₄.scopes.length := by rw [hsc4]; simp
-    have hflags : ∀ i, i < s₁.scopes.length → isFnScope s₅ i = isFnScope s₁ i := fun i hi =>
-      (fr5.flags i (Nat.lt_of_lt_of_le hi hscl14)).trans (hfl14 i hi)
-    have hfl : s₁.fns.length ≤ s₅.fns.length := by rw [← hfns4]; exact fr5.fnsLen
-    have hfo : ∀ id, id < s₁.fns.length → fnOf s₅ id = fnOf s₁ id := fun id hid =>
-      (fr5.fns id (by rw [hfns4]; exact hid)).trans (by unfold fnOf; rw [hfns4])
-    have hext1B : FramesExt rs₁ rsB := fun i fr hf =>
-      ⟨fr, by rw [hfrB, List.getElem?_append_left (lt_of_getElem?_some hf)]; exact hf, rfl⟩
-    have hrext : RExt rs₁ rs' := ⟨hext1B.trans ext5.1, fun i c hc => ext5.2 i c (by rw [hclB]; exact hc)⟩
-    refine ⟨{ s₅ with pc := s₁.pc + 1, linear := s₁.linear, addr := s₁.addr, curfunc := s₁.curfunc }, m₅, v,
-      ((hreach4.trans r5).trans r6).trans r7, rfl, by show s₅.data = _; rw [l5.data, hd4], hv5, ?_,
-      fun id hid => hm5 id (by rw [hfns4]; exact hid), hrext, ?_, ?_⟩
-    · exact hrel.back rel5 rfl rfl rfl rfl rfl rfl hflags hfl hfo hrext.1
-    · exact ⟨⟨rfl, rfl, rfl, by show s₅.suspended = _; rw [fr5.susp, hsusp4], hfl, hfo,
-        by show s₁.loops.length ≤ s₅.loops.length; rw [← hloops4]; exact fr5.loopsLen,
-        fun id hid => by show s₅.loops.getD id {} = _; rw [← hloops4]; exact fr5.loops id (by rw [hloops4]; exact hid)⟩,
-        Nat.le_trans hscl14 fr5.scLen, hflags⟩
-    · exact ValIn.mono hcl5 (fun id hgd => hgd.mono (FnsKeep.of_fns_eq rfl) (Nat.le_refl _) (fun _ _ => rfl) (RExt.refl _) rfl)
-  | err rs' =>
-    rw [hres] at hsim
-    simp only
-    exact FailsX.of_reach hreach4 hsim
-  | timeout => trivial
-  | brk l rs' => rw [hres] at hsim; exact hsim.elim
-  | cont l rs' => rw [hres] at hsim; exact hsim.elim
 
 /-! ## The call instruction: the reference side -/
 
@@ -931,7 +786,7 @@ theorem simF_call_builtin {k : Nat} (hA : FClaimA (k + 1)) {h name : String} (hn
         rw [hexec (G + 1), run_bind, hM (G + 1 + 1) (by omega)]
         simp only
         rw [hlen, hcu G, hres]; rfl
-      have hrelF : RelF m1 sF rsF env := rel1.of_same hsc hlin hfns rfl hfr hcl hheap htr hhok
+      have hrelF : RelF m1 sF rsF env := rel1.of_same hsc hlin hfns rfl hfr hcl hheap htr hhok (LoopsExt.of_eq hlps)
       have hfnF : fnOf sF sF.curfunc = fnOf s s.curfunc := by
         show s3.fns.getD s1.curfunc {} = _
         rw [hfns, fr1.curfunc]; exact fr1.fns _ hcurlt
@@ -1199,7 +1054,7 @@ theorem tmpl_facts (isFn : Nat → Bool) (gs g₂ : GS) (fname : String) (ps : L
   have hlf : (gsFin g₂ gs.fns.length b).fns.length = g₂.fns.length := by simp [gsFin]
   have hlen := hgen.len
   rw [hlf] at hlen
-  refine ⟨?_, by omega, ⟨hgen.live, by have := hgen.main; simp [gsAlloc]; omega, hlen, fun t h1 h2 => ?_⟩⟩
+  refine ⟨?_, by omega, ⟨hgen.live, by have := hgen.main; simp [gsAlloc]; omega, hlen, fun t h1 h2 => ?_, hgen.loops⟩⟩
   · rw [hgen.tmpl gs.fns.length (Nat.le_refl _) (by rw [hlf]; omega), gsFin_getD_self _ _ _ (by omega)]
     exact finTmpl_eq isFn gs g₂ fname ps b hk
   · have h1' : gs.fns.length + 1 ≤ t := by simpa [gsAlloc] using h1
@@ -1214,7 +1069,8 @@ theorem closure_step {m : Nat → Nat} {s : St} {rs : Ref.St} {env : Nat} (hrel 
     (huser : (fnOf s t).user = false) (htlt : t < s.fns.length) (htclo : (fnOf s t).closing = [some 0])
     (hcode : ∃ b tl isFn cb gs0 gs1 self, (fnOf s t).code = fnCode t c.ps b
       ∧ (compileBegin isFn cb c.body).run gs0 = .ok ((b, tl), gs1) ∧ cb.scopes = 0
-      ∧ FnameOk self cb ∧ FfList true self c.body = true ∧ GenOk gs0 gs1 s) :
+      ∧ FnameOk self cb ∧ (∃ ex, FzList ex self c.body = true ∧ (ex = true → gs0.loopstack = [])) ∧ GenOk gs0 gs1 s
+      ∧ KnownOk cb gs0 c.ps) :
     RelF (mapWith m s.fns.length rs.clos.length) (afterClosure s t) { rs with clos := rs.clos ++ [c] } env
       ∧ GoodFn (mapWith m s.fns.length rs.clos.length) (afterClosure s t) { rs with clos := rs.clos ++ [c] } s.fns.length
       ∧ MExt s m (mapWith m s.fns.length rs.clos.length) ∧ RExt rs { rs with clos := rs.clos ++ [c] }
@@ -1264,7 +1120,8 @@ theorem simF_fn {n : Nat} {self : String} (ps : List String) (body : List Expr)
     { ps := ps, rest := none, body := body, env := env } rfl rfl hnd hps hbody
     (by rw [hTd]; rfl) (by rw [hTd]; rfl) (by rw [hTd]; rfl) (by rw [hTd]; rfl) htl
     (by rw [hTd]; show newClosing isFn gs.live = [some 0]; rw [hgen.live]; exact newClosing_single _)
-    ⟨b, tl, isFn, anonCtx c gs, _, g2, "", by rw [hTd], hb, rfl, anonCtx_funcname c gs, hff, hgenb⟩
+    ⟨b, tl, isFn, anonCtx c gs, _, g2, "", by rw [hTd], hb, rfl, anonCtx_funcname c gs, ⟨false, fzList_of_ff _ _ hff, fun h => by cases h⟩, hgenb,
+      knownOk_anonCtx c gs _ ps⟩
   rw [Ref.eval]
   have a0 : At s pre (.createClosure gs.fns.length) post := hseg.head
   refine ⟨afterClosure s gs.fns.length, _, .fn s.fns.length,
@@ -1273,30 +1130,29 @@ theorem simF_fn {n : Nat} {self : String} (ps : List String) (body : List Expr)
   show Val.fn rs.clos.length = Val.fn _
   rw [hmv]
 
-theorem simF_defn {n : Nat} {self : String} (name : String) (ps : List String) (body : List Expr)
-    (hform : Ff true self (.defn name ps none body) = true) (isFn : Nat → Bool) (c : Ctx) (gs : GS)
+/-- `defn`: the closure is made and bound; the body may hold self tail calls (`FzList`) -/
+theorem simF_defn_core {n : Nat} (name : String) (ps : List String) (body : List Expr)
+    (hname : okName name = true) (hne : name ≠ "") (hnd : ps.Nodup) (hps : ∀ p ∈ ps, okParam p = true) (hbody : body ≠ [])
+    {ex : Bool} (hfz : FzList ex name body = true) (hex : ex = true → gs.loopstack = []) (isFn : Nat → Bool) (c : Ctx) (g2 : GS)
+    (b : List Instr) (tl : Bool)
+    (hb : (compileBegin isFn (bodyCtx c gs name ps body) body).run (gsAlloc isFn gs name ps) = .ok ((b, tl), g2))
+    (hk2 : KeepFns (gsAlloc isFn gs name ps) g2)
     (r : (List Instr × Bool) × GS) (hc : (compile isFn c (.defn name ps none body)).run gs = .ok r)
     {m : Nat → Nat} {s : St} {rs : Ref.St} {env : Nat} {pre post : List Instr}
     (hrel : RelF m s rs env) (hgen : GenOk gs r.2 s) (hseg : Seg s pre r.1.1 post) :
     SimF r.1.1 m s rs env (Ref.eval (n + 1) (.defn name ps none body) env rs) := by
-  rw [Ff] at hform
-  simp only [Bool.and_eq_true, Option.isNone_none, bne_iff_ne, ne_eq, decide_eq_true_eq, Bool.not_eq_true',
-    List.isEmpty_eq_false_iff, List.all_eq_true, true_and] at hform
-  obtain ⟨⟨⟨⟨⟨hname, hne⟩, hnd⟩, hps⟩, hbody⟩, hff⟩ := hform
-  obtain ⟨b, tl, g2, hb, _, hk2⟩ := compileBegin_total_Ff true name body hbody hff isFn (bodyCtx c gs name ps body)
-    (gsAlloc isFn gs name ps) (bodyCtx_funcname c gs name ps body)
   have hceq := compile_defn_eq isFn c name ps body gs g2 b tl hne hb
   rw [hceq] at hc
   injection hc with hc
   subst hc
   simp only at hseg hgen ⊢
-  obtain ⟨hTd, htl, hgenb⟩ := tmpl_facts isFn gs g2 _ ps b s hk2.1 hgen
+  obtain ⟨hTd, htl, hgenb⟩ := tmpl_facts isFn gs g2 _ ps b s hk2 hgen
   obtain ⟨rel1, hgood, hmext, hrext, hfr01, hmv, hfo⟩ := closure_step hrel gs.fns.length
     { ps := ps, rest := none, body := body, env := env } rfl rfl hnd hps hbody
     (by rw [hTd]; rfl) (by rw [hTd]; rfl) (by rw [hTd]; rfl) (by rw [hTd]; rfl) htl
     (by rw [hTd]; show newClosing isFn gs.live = [some 0]; rw [hgen.live]; exact newClosing_single _)
     ⟨b, tl, isFn, bodyCtx c gs name ps body, _, g2, name, by rw [hTd], hb, rfl, bodyCtx_funcname c gs name ps body,
-      hff, hgenb⟩
+      ⟨ex, hfz, hex⟩, hgenb, knownOk_bodyCtx isFn c gs name ps body⟩
   -- the reference side
   rw [Ref.eval]
   show SimF _ m s rs env
@@ -1350,5 +1206,20 @@ theorem simF_defn {n : Nat} {self : String} (name : String) (ps : List String) (
     · subst hs2; subst hs1
       show s.pc + 1 + 1 + 1 = _; simp; omega
     · subst hs2; subst hs1; rfl
+
+theorem simF_defn {n : Nat} {self : String} (name : String) (ps : List String) (body : List Expr)
+    (hform : Ff true self (.defn name ps none body) = true) (isFn : Nat → Bool) (c : Ctx) (gs : GS)
+    (r : (List Instr × Bool) × GS) (hc : (compile isFn c (.defn name ps none body)).run gs = .ok r)
+    {m : Nat → Nat} {s : St} {rs : Ref.St} {env : Nat} {pre post : List Instr}
+    (hrel : RelF m s rs env) (hgen : GenOk gs r.2 s) (hseg : Seg s pre r.1.1 post) :
+    SimF r.1.1 m s rs env (Ref.eval (n + 1) (.defn name ps none body) env rs) := by
+  rw [Ff] at hform
+  simp only [Bool.and_eq_true, Option.isNone_none, bne_iff_ne, ne_eq, decide_eq_true_eq, Bool.not_eq_true',
+    List.isEmpty_eq_false_iff, List.all_eq_true, true_and] at hform
+  obtain ⟨⟨⟨⟨⟨hname, hne⟩, hnd⟩, hps⟩, hbody⟩, hff⟩ := hform
+  obtain ⟨b, tl, g2, hb, _, hk2⟩ := compileBegin_total_Ff true name body hbody hff isFn (bodyCtx c gs name ps body)
+    (gsAlloc isFn gs name ps) (bodyCtx_funcname c gs name ps body)
+  exact simF_defn_core name ps body hname hne hnd hps hbody (fzList_of_ff _ _ hff) (fun h => by cases h) isFn c g2 b tl hb hk2.1
+    r hc hrel hgen hseg
 
 end ZygoVerif.Sim
